@@ -113,7 +113,7 @@ func genCount(t *rapid.T) CountCase {
 			m.Classes[ci].Methods[mi].Calls = calls
 		}
 	}
-	return CountCase{Model: m, Cli: rapid.IntRange(0, 39).Draw(t, "cli") == 39}
+	return CountCase{Model: m, Cli: rapid.IntRange(0, 79).Draw(t, "cli") == 79}
 }
 
 func checkCount(c CountCase) pbt.Verdict {
@@ -928,7 +928,7 @@ func genConcept(t *rapid.T) ConceptCase {
 	})
 	method := rapid.SliceOfN(word, 1, 5)
 	class := rapid.SliceOfN(method, 0, 5)
-	return ConceptCase{Classes: rapid.SliceOfN(class, 1, 4).Draw(t, "classes"), Cli: rapid.IntRange(0, 29).Draw(t, "cli") == 29}
+	return ConceptCase{Classes: rapid.SliceOfN(class, 1, 4).Draw(t, "classes"), Cli: rapid.IntRange(0, 49).Draw(t, "cli") == 49}
 }
 
 func checkConcept(c ConceptCase) pbt.Verdict {
@@ -1029,7 +1029,7 @@ func names(deps []core_domain.CodeDataStruct) []string {
 
 func init() {
 	pbt.SetProperty("C18")
-	pbt.Describe("count: rapid-generated code models (mgen: 1-5 classes, 0-4 methods, 0-5 calls per method to declared / undeclared / external methods, empty receivers, constructor form; recorded calls repeated 0-3 times to raise multiplicities); oracle: per declared method the number of call sites whose full name equals it, absent when 0, sum == resolving sites; 1 case in 40 also runs `coca count` twice on the same deps.json (identical stdout, table rows == reference). evaluate: generated Java projects (1-4 classes, one per file, flat or src/main/java layout, class names with/without Util, Utils, Service, ServiceImpl; no constructors, no interfaces; 0-5 methods with modifiers in drawn permutations of subsets of {public|private|protected, static, final, synchronized} or {public|protected, abstract} in abstract classes; at most one annotation (@Nullable, @CheckForNull, @Deprecated, @SuppressWarnings) before or between the modifiers; bodies of 0-3 statements (filler, if-return with or without braces, if-else-return) and a closing return whose expressions are null, literals, a field, conditional expressions with or without null), every file validated with the shipped ANTLR parser; analysed with JavaIdentifierApp + JavaFullApp + evaluate.Analyser as `coca analysis`/`coca evaluate` do; oracle from the description: ClassCount, MethodCount, StaticMethodCount (modifier set contains static), UtilsCount, Nullable.Items as a duplicate-free set; 1 case in 10 also runs the two CLI commands and reads the stdout table. concept: 1-4 classes x 0-5 methods named by 1-5 lower-case words (domain words, the tool's tech stop words, the tool's English stop words) in plain camelCase; oracle: sum of reported counts == number of words not in ENGLISH_STOP_WORDS u TechStopWords; 1 case in 30 through `coca concept`. Non-trivial: count = a method with >= 2 resolving sites and an unresolved site; evaluate = a static method whose static is not the last modifier or a return of null followed by a non-null return; concept = stop words and non-stop words both present.",
+	pbt.Describe("count: rapid-generated code models (mgen: 1-5 classes, 0-4 methods, 0-5 calls per method to declared / undeclared / external methods, empty receivers, constructor form; recorded calls repeated 0-3 times to raise multiplicities); oracle: per declared method the number of call sites whose full name equals it, absent when 0, sum == resolving sites; 1 case in 80 also runs `coca count` twice on the same deps.json (identical stdout, table rows == reference). evaluate: generated Java projects (1-4 classes, one per file, flat or src/main/java layout, class names with/without Util, Utils, Service, ServiceImpl; no constructors, no interfaces; 0-5 methods with modifiers in drawn permutations of subsets of {public|private|protected, static, final, synchronized} or {public|protected, abstract} in abstract classes; at most one annotation (@Nullable, @CheckForNull, @Deprecated, @SuppressWarnings) before or between the modifiers; bodies of 0-3 statements (filler, if-return with or without braces, if-else-return) and a closing return whose expressions are null, literals, a field, conditional expressions with or without null), every file validated with the shipped ANTLR parser; analysed with JavaIdentifierApp + JavaFullApp + evaluate.Analyser as `coca analysis`/`coca evaluate` do; oracle from the description: ClassCount, MethodCount, StaticMethodCount (modifier set contains static), UtilsCount, Nullable.Items as a duplicate-free set; 1 case in 10 also runs the two CLI commands and reads the stdout table. concept: 1-4 classes x 0-5 methods named by 1-5 lower-case words (domain words, the tool's tech stop words, the tool's English stop words) in plain camelCase; oracle: sum of reported counts == number of words not in ENGLISH_STOP_WORDS u TechStopWords; 1 case in 50 through `coca concept`. Non-trivial: count = a method with >= 2 resolving sites and an unresolved site; evaluate = a static method whose static is not the last modifier or a return of null followed by a non-null return; concept = stop words and non-stop words both present.",
 		"evaluate: return expressions and identifiers never contain the text `null` except the null literal itself (the tool's test is textual); classes named with the word Util/Utils are the utility classes; method names are unique within a class",
 		"evaluate: only the 'Type Count' and 'Level Total' columns of the `coca evaluate` table are compared (the percentage column of the Static Method row is computed from the utility-class count: observed, outside the statement); coca_reporter/evaluate.json is not read because it is written empty whenever a standard deviation is NaN",
 		"concept: words are 2-12 lower-case letters (single-letter words are merged by the camel-case splitter: outside 'plain camelCase')")
